@@ -39,7 +39,55 @@ def run(ctx):
     check_map(ctx, prog)
     check_set(ctx, prog)
     check_share(ctx, prog)
+    check_enum_range(ctx, prog)
     return __doc__.split('\n\n', 1)[1]
+
+
+def check_enum_range(ctx, prog):
+    """C02.enum: the hash-map enumerator walks the bucket array to its end.  Every construction of the bucket enumerator
+    (asl::Array<..>::Enumerator) inside HashMap code either takes the whole array or an explicit (begin, end) range whose end
+    evaluates to the array length for every length (bounded evaluation)."""
+    import bounded, bytesets
+    n = 0
+    for f in prog.functions:
+        if not (f.get('clsp') or '').startswith('asl::HashMap') or not f.get('body'):
+            continue
+        cons = []
+        for i_ in f.get('inits', []):
+            cons += [w for w in walk_expr(i_.get('e')) if w.get('k') == 'construct' and 'asl::Array' in (w.get('cls') or '') and 'Enumerator' in (w.get('cls') or '')]
+        cons += [w for w in fn_exprs(f) if w.get('k') == 'construct' and 'asl::Array' in (w.get('cls') or '') and 'Enumerator' in (w.get('cls') or '') and w not in cons]
+        for c in cons:
+            if c.get('copy') or c.get('trivial'):
+                continue
+            n += 1
+            role = '%s%s:bucket enumerator covers the whole bucket array' % (f['n'], f['sig'])
+            args = c.get('a', [])
+            if len(args) <= 1:
+                ctx.ok('C02.enum', f['pq'], role, fwhere(f, c.get('l')), 'enumerates the whole array')
+                continue
+            if len(args) != 3:
+                ctx.undecided('C02.enum', f['pq'], role, fwhere(f, c.get('l')), 'bucket enumerator built from %d arguments' % len(args))
+                continue
+            lens = set(pe(w) for w in walk_expr(args[2]) if w.get('k') == 'call' and (w.get('pq') or '').endswith('::length'))
+            if len(lens) != 1:
+                ctx.undecided('C02.enum', f['pq'], role, fwhere(f, c.get('l')), 'end of the range `%s` does not mention one array length' % pe(args[2]))
+                continue
+            lt = list(lens)[0]
+            bad = None
+            try:
+                for L in range(4, 40):
+                    ev = bounded.Bound(prog, f, {}, {lt: L})
+                    end = ev.ev(args[2])
+                    ctx.evaluations += 1
+                    if end != L and bad is None:
+                        bad = (L, end)
+            except bytesets.Undecidable as u:
+                ctx.undecided('C02.enum', f['pq'], role, fwhere(f, c.get('l')), 'range end not evaluable: %s' % u)
+                continue
+            ctx.check(bad is None, 'C02.enum', f['pq'], role, fwhere(f, c.get('l')), 'range end `%s` = array length' % pe(args[2]),
+                      'the bucket enumerator is built for the index range ending at `%s` = %s for a bucket array of %s slots: the last %s bucket(s) are never enumerated (keys there are stored and found but skipped by foreach / clone / == / set operations)'
+                      % (pe(args[2]), bad[1] if bad else '', bad[0] if bad else '', (bad[0] - bad[1]) if bad else ''))
+    ctx.floor('C02.enum bucket enumerators', n, 1)
 
 
 def hm_members(prog, name):
